@@ -666,6 +666,9 @@ class CommandMixin(object):
                 self.v("C02", "unsubscribed-gets-nothing", ev, "add emitted %r to conn %s" % (self._brief(f), c))
         for c in subscribers:
             got = per.pop(c, [])
+            cmo = self.conns.get(c)
+            if cmo is not None and getattr(cmo, "lingering", False) and not got:
+                continue          # in the close handshake: nothing can be delivered any more
             if len(got) != 1:
                 self.v("C02", "each-subscriber-exactly-once", ev,
                        "add %r on %r: subscribed conn %s received %d message frames (subscribers %r)"
